@@ -25,6 +25,7 @@ const (
 	USDC = "uusdc"
 	ATOM = "uatom"
 	ELYS = "uelys"
+	WETH = "aweth" // optional 18-decimals asset (MarketOpts.Extra18)
 )
 
 type Market struct {
@@ -35,6 +36,7 @@ type Market struct {
 	Display  map[string]string
 	OraclePool uint64 // uusdc/uatom, UseOracle, leverage + perpetual enabled
 	CPPool     uint64 // uusdc/uelys constant product, weights 1:3
+	OraclePool2 uint64 // optional (Extra18): uusdc/aweth, UseOracle, leverage + perpetual enabled; aweth has 18 decimals and a price far from 1
 }
 
 func dec(s string) sdkmath.LegacyDec { return sdkmath.LegacyMustNewDecFromStr(s) }
@@ -81,6 +83,8 @@ type MarketOpts struct {
 	NoCPPool    bool
 	AtomPrice   string
 	OracleWeights [2]int64
+	Extra18     bool   // adds aweth (18 decimals, price WethPrice) to every user and a second oracle pool uusdc/aweth
+	WethPrice   string // default 2000.0
 }
 
 func DefaultMarketOpts() MarketOpts {
@@ -103,10 +107,23 @@ func NewMarket(w *World, o MarketOpts) *Market {
 	m.SetPrice(USDC, dec("1.0"))
 	m.SetPrice(ATOM, dec(o.AtomPrice))
 	m.SetPrice(ELYS, dec("3.0"))
+	e12 := sdkmath.NewInt(1_000_000_000_000)
+	if o.Extra18 {
+		if o.WethPrice == "" {
+			o.WethPrice = "2000.0"
+		}
+		m.Display[WETH] = "WETH"
+		app.AssetprofileKeeper.SetEntry(ctx, atypes.Entry{BaseDenom: WETH, Denom: WETH, Decimals: 18, DisplayName: "WETH", CommitEnabled: true, WithdrawEnabled: true})
+		app.OracleKeeper.SetAssetInfo(ctx, oracletypes.AssetInfo{Denom: WETH, Display: "WETH", Decimal: 18})
+		m.SetPrice(WETH, dec(o.WethPrice))
+	}
 	for i := 0; i < o.Users; i++ {
 		a := Addr(i)
 		m.Users = append(m.Users, a)
 		w.Mint(a, sdk.NewCoins(sdk.NewCoin(USDC, I(o.UserFunds)), sdk.NewCoin(ATOM, I(o.UserFunds)), sdk.NewCoin(ELYS, I(o.UserFunds))))
+		if o.Extra18 {
+			w.Mint(a, sdk.NewCoins(sdk.NewCoin(WETH, I(o.UserFunds).Mul(e12).QuoRaw(100)))) // 1/100 of the whole-token count of the others
+		}
 	}
 	creator := m.Users[0]
 	// amm params: allow the creator, base asset uusdc
@@ -134,11 +151,19 @@ func NewMarket(w *World, o MarketOpts) *Market {
 	if !o.NoCPPool {
 		m.CPPool = mk(false, sdk.NewCoin(USDC, I(o.CPUSDC)), sdk.NewCoin(ELYS, I(o.CPELYS)), 1, 3)
 	}
+	if o.Extra18 {
+		// same USD value on both sides at the fixture price: OracleUSDC/price whole WETH
+		weth := dec(fmt.Sprint(o.OracleUSDC)).Quo(dec(o.WethPrice)).MulInt(e12).TruncateInt()
+		m.OraclePool2 = mk(true, sdk.NewCoin(USDC, I(o.OracleUSDC)), sdk.NewCoin(WETH, weth), o.OracleWeights[0], o.OracleWeights[1])
+	}
 	if o.VaultFunds > 0 {
 		m.must("bond", w.Deliver(&sstypes.MsgBond{Creator: m.Users[o.Users-1].String(), Amount: I(o.VaultFunds)}))
 	}
 	if !o.NoLeverage {
 		m.must("leveragelp add pool", w.Deliver(&levtypes.MsgAddPool{Authority: w.Gov, Pool: levtypes.AddPool{AmmPoolId: m.OraclePool, LeverageMax: dec("10")}}))
+		if o.Extra18 {
+			m.must("leveragelp add pool 2", w.Deliver(&levtypes.MsgAddPool{Authority: w.Gov, Pool: levtypes.AddPool{AmmPoolId: m.OraclePool2, LeverageMax: dec("10")}}))
+		}
 	}
 	return m
 }
